@@ -1237,3 +1237,12 @@ def run(res, facts, tier):
     _run_c02_23(res, facts, tier)
     from . import c02_str
     c02_str.run_rule(res, facts, tier)
+
+
+_run_c02_24 = run
+
+
+def run(res, facts, tier):
+    _run_c02_24(res, facts, tier)
+    from . import c02_parse
+    c02_parse.run_rule(res, facts, tier)
